@@ -106,7 +106,8 @@ SHAPES = [
 OS_NATIVES = ["execute", "file_input", "file_copy", "file_delete",
               "file_exists", "file_info", "file_move", "file_output",
               "list_dir", "make_dir", "run", "read_file"]
-ALIAS_MODES = ["none", "fresh", "existing", "run", "predef", "insecure-name"]
+ALIAS_MODES = ["none", "fresh", "existing", "run", "predef", "insecure-name",
+               "result", "result-alias"]
 FLAG = "checkerlang_secure_mode"
 
 _DISC = {}
@@ -273,6 +274,15 @@ def native_ops(name, mode, base_names):
         ops.append({"inst": "S", "src": f"bind_native('{name}')",
                     "tag": "bind"})
         return ops + invoke_ops(name)
+    if mode in ("result", "result-alias"):
+        # whatever the binder call itself evaluates to (also when it
+        # refuses and raises) is kept as a value and used
+        call = (f"bind_native('{name}')" if mode == "result"
+                else f"bind_native('{name}', 'ra_{name}')")
+        ops.append({"inst": "S", "src": f"def rv_{name} = NULL; "
+                    f"rv_{name} = do {call}; catch all NULL; end",
+                    "tag": "bind-result"})
+        return ops + invoke_ops("rv_" + name)
     if mode == "none":
         ops.append({"inst": "S", "src": f"bind_native('{name}')",
                     "tag": "bind"})
